@@ -1,7 +1,8 @@
 from contracts.histories import ApiHistories, KfRemoveThroughParent
 from contracts.concat import ConcatHistories
 from contracts.removal import CONTRACTS as _R
-CONTRACTS = list(_R) + [ApiHistories, KfRemoveThroughParent, ConcatHistories]
+from contracts.tree import SweepDeadEntries
+CONTRACTS = list(_R) + [SweepDeadEntries, ApiHistories, KfRemoveThroughParent, ConcatHistories]
 
 MANIFEST = {
     "category": "proof",
